@@ -35,7 +35,7 @@ def one(args):
         import traceback
         return path, prop, 'internal-error', repr(e)[:200] + traceback.format_exc()[-400:]
     known = {(k['property'], k['rule'], k['key']) for k in load_known().get('known', [])}
-    new = [(f.rule, f.key, f.message[:160]) for f in ctx.findings if f.ident() not in known]
+    new = [(f.rule, f.key, f.explanation[:200]) for f in ctx.findings if f.ident() not in known]
     return path, prop, 'findings' if new else 'silent', new
 
 
